@@ -1,6 +1,6 @@
 (* Props/C15.v -- property C15: connections live while referenced, expire 32 s after last use, never reused dead *)
 From Coq Require Import List Arith NArith Bool.
-From EZK Require Import Model.C15 Proofs.C15.
+From EZK Require Import Gen.Tables Model.C15 Proofs.C15.
 Import ListNotations.
 Open Scope N_scope.
 
@@ -73,3 +73,13 @@ Example C15_example :
   let s := fst (run_group init_outgoing [DropH; Frame]) in
   (delivered s, present s, panicked s, tsk s) = (1%nat, true, false, TUnused 32000 false).
 Proof. vm_compute. reflexivity. Qed.
+
+(* "closed after 32 s without traffic": a message that is readable when the receive task of an unreferenced connection is polled is
+   delivered and revives the connection even if the idle timer has fired in the same tick (the frame is polled first) *)
+Theorem C15_frame_before_timer_guard : stream_frame_before_idle_timer = true.
+Proof. reflexivity. Qed.
+
+Theorem C15_message_beats_idle_timer : forall s d r,
+  stream_frame_before_idle_timer = true -> panicked s = false -> tsk s = TUnused d false -> ent s = EUnused -> inbox s = true :: r ->
+  exists s', task_step s = Some s' /\ delivered s' = S (delivered s) /\ ent s' = EUsed /\ inbox s' = r.
+Proof. exact frame_beats_idle_timer. Qed.
